@@ -50,7 +50,10 @@ def gen_case(run, i):
     if i % 8 == 6:
         nsb, nrb = rng.choice([(4, 4), (4, 5), (3, 3)])   # byte outputs with 3 / 4 bands: layouts GDAL may take for RGB(A)
     sel = ['default', 'ref-order', 'subset', 'forced'][(i // 4) % 4] if nsb > 1 else 'default'
-    return dict(i=i, family=family, crs=crs, proc=proc, src=src.to_dict(), ref=ref.to_dict(), nsb=nsb, nrb=nrb, sel=sel,
+    # creation options left out, explicitly empty, or explicitly None: all three mean the documented defaults
+    extra = [{}, dict(creation_options={}), dict(creation_options=None), {}][(i // 8) % 4] if i % 8 == 6 else \
+        [{}, {}, dict(creation_options={})][(i // 3) % 3]
+    return dict(profile_extra=extra, i=i, family=family, crs=crs, proc=proc, src=src.to_dict(), ref=ref.to_dict(), nsb=nsb, nrb=nrb, sel=sel,
                 south=south, model=rng.choice(['gain', 'gain-blk-offset', 'gain-offset']),
                 kernel=rng.choice([(3, 3), (3, 5), (5, 3)]), halvings=rng.choice([0, 2]),
                 dtype='uint8' if i % 8 == 6 else rng.choice(['float32', 'int16']),
@@ -117,7 +120,8 @@ def run(run: common.Run):
                                                  model=case['model'], kernel_shape=case['kernel'], proc_crs=case['proc'], param=True,
                                                  threads=case['threads'], src_bands=sb, ref_bands=rb, force=force,
                                                  model_config=dict(r2_inpaint_thresh=thr),
-                                                 out_profile=dict(dtype=case['dtype'], nodata={'float32': float('nan'), 'int16': -9999, 'uint8': 0}[case['dtype']]))
+                                                 out_profile=dict(dtype=case['dtype'], nodata={'float32': float('nan'), 'int16': -9999, 'uint8': 0}[case['dtype']],
+                                                                  **case.get('profile_extra', {})))
                 outs[variant] = (res, pair)
         except BlockSizeError:
             run.hist['processing window smaller than the overlap: skipped'] += 1
